@@ -35,6 +35,15 @@ Theorem C02_partial : forall md S rk,
 Proof. exact C02_acyclic. Qed.
 Print Assumptions C02_partial.
 
+(* ... and the schema's own model has the structural kind the document gives it: object for objects and allOf,
+   list of the item type for arrays, map of the value type, the primitive, enum (same guards as C02_partial). *)
+Theorem C02_partial_kind : forall md S rk,
+  core_spec S = true -> ranked_b rk S = true -> depth_ok rk S md = true ->
+  forall n nd, alookup n S = Some nd ->
+  exists e, alookup n (parsed (parse_doc md S)) = Some e /\ kind_ok nd e.
+Proof. exact C02_acyclic_kind. Qed.
+Print Assumptions C02_partial_kind.
+
 (* On such documents the run takes none of the loss-relevant branches, does not run out of fuel and registers
    every declared schema (so the dynamic guards of the correspondence driver are all true). *)
 Theorem C02_acyclic_runs_clean : forall md S rk,
